@@ -57,7 +57,7 @@ def make_space_group(number, choice):
     return SpaceGroup(number, choice=choice) if choice else SpaceGroup(number)
 
 
-def build(spec, fs_dir="/simfs/src"):
+def build(spec, fs_dir=None):
     """Construct the starting crystal of a run from its specification."""
     if spec["kind"] == "file":
         return Crystal.load(os.path.join(TEST_FILES, spec["name"]))
@@ -76,6 +76,10 @@ def build(spec, fs_dir="/simfs/src"):
     if not via:
         return c
     name = {"cif": "s.cif", "res": "s.res", "poscar": "POSCAR"}[via]
+    if fs_dir is None:
+        from .simfs import FS
+
+        fs_dir = FS.dir("src")
     path = fs_dir + "/" + name
     try:
         c.save(path)
